@@ -251,6 +251,15 @@ def coq_build(targets, timeout=3000):
         t0 = time.time()
         rc, out = sh(['make', '-j%d' % NCPU] + list(targets), cwd=COQ, timeout=timeout)
         log('[coq] make %s -> rc=%d in %.1fs' % (' '.join(targets), rc, time.time() - t0))
+        # a coqc process killed from outside (out-of-memory killer, signal) is not a broken proof: try again with
+        # little parallelism, and if it is killed again report a machinery error, never a violation
+        killed = r'Error 1(37|43)\b|[Kk]illed|[Oo]ut of memory|Cannot allocate memory'
+        if rc != 0 and re.search(killed, out):
+            t0 = time.time()
+            rc, out = sh(['make', '-j3'] + list(targets), cwd=COQ, timeout=timeout)
+            log('[coq] (retry after a killed coqc) make -j3 %s -> rc=%d in %.1fs' % (' '.join(targets), rc, time.time() - t0))
+            if rc != 0 and re.search(killed, out):
+                raise MachineryError('coqc was killed from outside (memory / signal) while building %s:\n%s' % (' '.join(targets), out[-1500:]))
         return rc == 0, out
 
 
@@ -318,35 +327,56 @@ def theorem_names(prop_file):
 
 
 def print_assumptions(prop_id, prop_file):
-    """Returns (ok, {theorem: [axioms]}, log)."""
+    """Returns (ok, {theorem: [axioms]}, log).  The theorems are spread over a few coqc processes (each Print Assumptions
+    walks the whole dependency graph of its theorem, which takes seconds per theorem on the large developments)."""
     names = theorem_names(prop_file)
     mod = 'V.' + prop_file[:-2].replace('/', '.')
     d = os.path.join(BUILD, 'pa')
     os.makedirs(d, exist_ok=True)
-    f = os.path.join(d, 'PA_%s.v' % prop_id)
-    body = 'Require Import %s.\n' % mod + ''.join('Print Assumptions %s.\n' % n for n in names)
-    open(f, 'w').write(body)
-    rc, out = sh(['coqc', '-noglob', '-Q', COQ, 'V', f], cwd=d, timeout=600)
-    if rc != 0:
-        return False, {}, out
-    blocks = re.split(r'(?m)^(?=Closed under the global context|Axioms:)', out)
-    blocks = [b for b in blocks if b.strip()]
+    tag = 'PA_%s_%s' % (prop_id, re.sub(r'\W', '_', prop_file[:-2]))
+    nproc = max(1, min(8, len(names) // 3))
+    groups = [names[i::nproc] for i in range(nproc)]
+
+    def run(k):
+        f = os.path.join(d, '%s_%d.v' % (tag, k))
+        body = 'Require Import %s.\n' % mod + ''.join('Print Assumptions %s.\n' % n for n in groups[k])
+        open(f, 'w').write(body)
+        rc, out = sh(['coqc', '-noglob', '-Q', COQ, 'V', f], cwd=d, timeout=900)
+        if rc != 0:
+            return False, {}, out
+        blocks = re.split(r'(?m)^(?=Closed under the global context|Axioms:)', out)
+        blocks = [b for b in blocks if b.strip()]
+        res = {}
+        ok = len(blocks) == len(groups[k])
+        for n, b in zip(groups[k], blocks):
+            if b.startswith('Closed'):
+                res[n] = []
+            else:
+                ax = re.findall(r"(?m)^([A-Za-z_][\w\.\']*)\s*:", b)
+                res[n] = ax
+                for a in ax:
+                    if a not in ALLOWED_AXIOMS and a.split('.')[-1] not in ALLOWED_AXIOMS:
+                        ok = False
+        return ok, res, out
+
+    with cf.ThreadPoolExecutor(max_workers=nproc) as ex:
+        parts = list(ex.map(run, range(nproc)))
+    ok = all(p[0] for p in parts)
     res = {}
-    ok = len(blocks) == len(names)
-    for n, b in zip(names, blocks):
-        if b.startswith('Closed'):
-            res[n] = []
-        else:
-            ax = re.findall(r'(?m)^([A-Za-z_][\w\.\']*)\s*:', b)
-            res[n] = ax
-            for a in ax:
-                if a not in ALLOWED_AXIOMS and a.split('.')[-1] not in ALLOWED_AXIOMS:
-                    ok = False
-    return ok, res, out
+    for n in names:                      # keep the order of the property file
+        for p in parts:
+            if n in p[1]:
+                res[n] = p[1][n]
+    if ok and len(res) != len(names):
+        ok = False
+    return ok, res, '\n'.join(p[2] for p in parts)
 
 
-def coq_eval(tag, imports, exprs, timeout=1200, shard=None, preamble=''):
-    """Evaluate Gallina expressions with vm_compute inside Coq; returns parsed terms (same order)."""
+def coq_eval(tag, imports, exprs, timeout=1200, shard=None, preamble='', tolerate=False):
+    """Evaluate Gallina expressions with vm_compute inside Coq; returns parsed terms (same order).
+    With tolerate=True an expression Coq rejects (ill-typed / unparsable - e.g. an implementation observation that is
+    outside the observation type, pasted into the oracle) yields ('app', 'EvalError', []) instead of a machinery error;
+    the expressions around it are still evaluated (the file is re-run from the expression after the rejected one)."""
     if not exprs:
         return []
     d = os.path.join(BUILD, 'cases', tag)
@@ -357,24 +387,45 @@ def coq_eval(tag, imports, exprs, timeout=1200, shard=None, preamble=''):
     shards = [exprs[i:i + shard] for i in range(0, len(exprs), shard)]
     head = ('From Coq Require Import ZArith List String.\nImport ListNotations.\n%s\nOpen Scope Z_scope.\n'
             'Set Printing Width 100000.\nSet Printing Depth 100000.\n%s\n' % (imports, preamble))
+    nhead = head.count('\n')
 
-    def run(i):
-        f = os.path.join(d, 'cases_%d.v' % i)
-        with open(f, 'w') as fh:
-            fh.write(head)
-            for e in shards[i]:
-                fh.write('Eval vm_compute in (%s).\n' % e)
-        rc, out = sh(['coqc', '-noglob', '-Q', COQ, 'V', f], cwd=d, timeout=timeout)
-        if rc != 0:
-            raise MachineryError('coqc failed on %s:\n%s' % (f, out[-3000:]))
-        items = re.split(r'(?m)^\s*= ', out)[1:]
-        if len(items) != len(shards[i]):
-            raise MachineryError('coq answered %d of %d in %s' % (len(items), len(shards[i]), f))
+    def parse_items(out):
         res = []
-        for it in items:
+        for it in re.split(r'(?m)^\s*= ', out)[1:]:
             k = it.rfind('\n     : ')
             body = it[:k] if k >= 0 else it
-            res.append(term.parse(body))
+            res.append(body)
+        return res
+
+    def run(i):
+        todo = list(shards[i])
+        res = []
+        attempt = 0
+        while todo:
+            f = os.path.join(d, 'cases_%d%s.v' % (i, '' if attempt == 0 else '_r%d' % attempt))
+            with open(f, 'w') as fh:
+                fh.write(head)
+                for e in todo:
+                    fh.write('Eval vm_compute in (%s).\n' % e.replace('\n', ' '))
+            rc, out = sh(['coqc', '-noglob', '-Q', COQ, 'V', f], cwd=d, timeout=timeout)
+            if rc == 0:
+                items = parse_items(out)
+                if len(items) != len(todo):
+                    raise MachineryError('coq answered %d of %d in %s' % (len(items), len(todo), f))
+                res += [term.parse(b) for b in items]
+                break
+            m = re.search(r'File "[^"]*", line (\d+)', out)
+            if not tolerate or not m or attempt >= 60:
+                raise MachineryError('coqc failed on %s:\n%s' % (f, out[-3000:]))
+            bad = int(m.group(1)) - nhead - 1          # index in todo of the rejected expression
+            if not (0 <= bad < len(todo)):
+                raise MachineryError('coqc failed on %s (outside the cases):\n%s' % (f, out[-3000:]))
+            items = parse_items(out[:m.start()])
+            if len(items) < bad:
+                raise MachineryError('coq answered %d before failing at %d in %s' % (len(items), bad, f))
+            res += [term.parse(b) for b in items[:bad]] + [('app', 'EvalError', [])]
+            todo = todo[bad + 1:]
+            attempt += 1
         return res
 
     with cf.ThreadPoolExecutor(max_workers=NCPU) as ex:
